@@ -384,7 +384,7 @@ func (e *Engine) intercept(fr *frame, fn *ssa.Function, args []Value) (Value, bo
 		es := pkg.Type("errorString")
 		st := e.zero(es.Type()).(*StructVal)
 		st.F[0].V = args[0]
-		return IfaceVal{T: types.NewPointer(es.Type()), V: PtrVal{C: e.newCell(st)}}, true
+		return IfaceVal{T: types.NewPointer(es.Type()), V: PtrVal{C: e.newObjCell(st, es.Type(), "errors.New")}}, true
 	case "errors.Is":
 		return tb.Bool(e.errorsIs(fr, args[0].(IfaceVal), args[1].(IfaceVal))), true
 	case "errors.As":
@@ -423,14 +423,14 @@ func (e *Engine) intercept(fr *frame, fn *ssa.Function, args []Value) (Value, bo
 				st := e.zero(wt.Type()).(*StructVal)
 				st.F[0].V = e.strConst("<errorf>")
 				st.F[1].V = inner
-				return IfaceVal{T: types.NewPointer(wt.Type()), V: PtrVal{C: e.newCell(st)}}, true
+				return IfaceVal{T: types.NewPointer(wt.Type()), V: PtrVal{C: e.newObjCell(st, wt.Type(), "fmt.Errorf")}}, true
 			}
 		}
 		pkg := e.prog.ImportedPackage("errors")
 		es := pkg.Type("errorString")
 		st := e.zero(es.Type()).(*StructVal)
 		st.F[0].V = e.strConst("<errorf>")
-		return IfaceVal{T: types.NewPointer(es.Type()), V: PtrVal{C: e.newCell(st)}}, true
+		return IfaceVal{T: types.NewPointer(es.Type()), V: PtrVal{C: e.newObjCell(st, es.Type(), "fmt.Errorf")}}, true
 	case "fmt.Sprintf", "fmt.Sprint", "fmt.Sprintln":
 		e.stub("fmt.Sprintf (opaque text)")
 		return e.strConst("<fmt>"), true
@@ -459,7 +459,7 @@ func (e *Engine) intercept(fr *frame, fn *ssa.Function, args []Value) (Value, bo
 		st.F[0].V = parent
 		st.F[1].V = key
 		st.F[2].V = args[2]
-		return IfaceVal{T: types.NewPointer(vt.Type()), V: PtrVal{C: e.newCell(st)}}, true
+		return IfaceVal{T: types.NewPointer(vt.Type()), V: PtrVal{C: e.newObjCell(st, vt.Type(), "context.WithValue")}}, true
 	// ---------------- gob / sort / reflect ----------------
 	case "encoding/gob.Register":
 		e.stub("gob.Register (no-op)")
@@ -788,4 +788,15 @@ func permute(snap []*mapEntry, k int) []*mapEntry {
 		pool = append(pool[:j], pool[j+1:]...)
 	}
 	return out
+}
+
+// newObjCell allocates an object on behalf of a modelled library call; in event mode it gets an
+// allocation-site name so that it can be published into shared state.
+func (e *Engine) newObjCell(v Value, t types.Type, site string) *Cell {
+	c := e.newCell(v)
+	c.Type = t
+	if e.ev != nil && e.ev.active && e.ev.cur != nil {
+		c.Origin = e.originName(site)
+	}
+	return c
 }
